@@ -114,8 +114,12 @@ pub(crate) fn remove_or_compress_too_old_logfiles_impl(
         .into_iter()
         .enumerate()
     {
+        #[cfg(feature = "verif_hooks")]
+        crate::verif_hooks::point("cleanup.item", Some(&file)).ok();
         if index >= log_limit + compress_limit {
             // delete (log or log.gz)
+            #[cfg(feature = "verif_hooks")]
+            crate::verif_hooks::point("cleanup.remove", Some(&file))?;
             std::fs::remove_file(file)?;
         } else if index >= log_limit {
             #[cfg(feature = "compress")]
@@ -135,13 +139,23 @@ pub(crate) fn remove_or_compress_too_old_logfiles_impl(
                             }
                         }
 
+                        #[cfg(feature = "verif_hooks")]
+                        crate::verif_hooks::point("gz.create", Some(&compressed_file))?;
                         let mut gz_encoder = flate2::write::GzEncoder::new(
                             File::create(compressed_file)?,
                             flate2::Compression::fast(),
                         );
+                        #[cfg(feature = "verif_hooks")]
+                        crate::verif_hooks::point("gz.open", Some(&file))?;
                         let mut old_file = File::open(file.clone())?;
+                        #[cfg(feature = "verif_hooks")]
+                        crate::verif_hooks::point("gz.copy", Some(&file))?;
                         std::io::copy(&mut old_file, &mut gz_encoder)?;
+                        #[cfg(feature = "verif_hooks")]
+                        crate::verif_hooks::point("gz.finish", Some(&file))?;
                         gz_encoder.finish()?;
+                        #[cfg(feature = "verif_hooks")]
+                        crate::verif_hooks::point("gz.remove_original", Some(&file))?;
                         std::fs::remove_file(&file)?;
                     }
                 }
@@ -186,6 +200,8 @@ pub(super) fn start_cleanup_thread(
         sender,
         join_handle: builder.spawn(move || {
             while let Ok(MessageToCleanupThread::Act) = receiver.recv() {
+                #[cfg(feature = "verif_hooks")]
+                crate::verif_hooks::point("cleanup.thread", None).ok();
                 remove_or_compress_too_old_logfiles_impl(
                     &cleanup,
                     &file_spec,
